@@ -123,3 +123,146 @@ Proof.
   - rewrite (map_prune_param v r Hs). exact He.
   - rewrite (map_tprune_param v r Hs). exact Ht.
 Qed.
+
+(* ------------------------------------------------------------------ [F] pruning twice, every schema file *)
+Definition entry_eqb (a b : entry) : bool :=
+  json_eqb (e_root a) (e_root b) && json_eqb (JObj (e_store a)) (JObj (e_store b)).
+
+Lemma entry_eqb_eq a b : entry_eqb a b = true -> a = b.
+Proof.
+  unfold entry_eqb. rewrite andb_true_iff. intros [H1 H2].
+  apply json_eqb_eq in H1. apply json_eqb_eq in H2. destruct a, b. cbn in *. congruence.
+Qed.
+
+(* Err is allowed for the first pruning only (files without "properties": KeyError) *)
+Definition idem_check (root : json) (r : num) : bool :=
+  match prune_entry r (mk_entry root schema_files) with
+  | Ok e1 => match prune_entry r e1 with Ok e2 => entry_eqb e1 e2 | Err _ => false end
+  | Err x => match x with PyKeyError => true | _ => false end
+  end.
+
+Lemma idem_check_all :
+  forallb (fun kv => forallb (idem_check (snd kv)) shipped_reps) schema_files = true.
+Proof. vm_compute. reflexivity. Qed.
+
+Lemma idem_check_rep name root r :
+  assoc name schema_files = Some root -> In r shipped_reps -> idem_check root r = true.
+Proof.
+  intros Ha Hr. pose proof idem_check_all as H. rewrite forallb_forall in H.
+  specialize (H _ (assoc_Some_in _ _ _ Ha)). cbn [snd] in H. rewrite forallb_forall in H. exact (H r Hr).
+Qed.
+
+Lemma idem_check_sound root r e1 :
+  idem_check root r = true -> prune_entry r (mk_entry root schema_files) = Ok e1 -> prune_entry r e1 = Ok e1.
+Proof.
+  unfold idem_check. intros H E. rewrite E in H.
+  destruct (prune_entry r e1) as [e2|]; [|discriminate]. apply entry_eqb_eq in H. congruence.
+Qed.
+
+Lemma only_key_error root r x :
+  idem_check root r = true -> prune_entry r (mk_entry root schema_files) = Err x -> x = PyKeyError.
+Proof. unfold idem_check. intros H E. rewrite E in H. destruct x; try discriminate. reflexivity. Qed.
+
+(* for EVERY version and every schema file *)
+Lemma prune_idem_shipped name root (v : num) e1 :
+  assoc name schema_files = Some root ->
+  prune_entry v (mk_entry root schema_files) = Ok e1 -> prune_entry v e1 = Ok e1.
+Proof.
+  intros Ha E. destruct (shipped_rep v) as (r & Hin & Hs).
+  pose proof (file_bounded _ _ Ha) as Hb0.
+  rewrite (prune_entry_param shipped_B v r _ shipped_defaults Hs Hb0) in E.
+  pose proof (prune_entry_bounded shipped_B r _ _ Hb0 E) as Hb1.
+  rewrite (prune_entry_param shipped_B v r e1 shipped_defaults Hs Hb1).
+  eapply idem_check_sound; [eapply idem_check_rep; eassumption|exact E].
+Qed.
+
+Lemma prune_total_shipped name root (v : num) x :
+  assoc name schema_files = Some root ->
+  prune_entry v (mk_entry root schema_files) = Err x -> x = PyKeyError.
+Proof.
+  intros Ha E. destruct (shipped_rep v) as (r & Hin & Hs).
+  rewrite (prune_entry_param shipped_B v r _ shipped_defaults Hs (file_bounded _ _ Ha)) in E.
+  eapply only_key_error; [eapply idem_check_rep; eassumption|exact E].
+Qed.
+
+(* ------------------------------------------------------------------ a fresh Validator *)
+Lemma gvs_fresh name (v : vnum) root :
+  assoc (schema_file_name name) schema_files = Some root -> vtruthy (Some v) = true ->
+  fst (get_versioned_schema schema_files (Some v) name init_state)
+  = prune_entry (vnum_num v) (mk_entry root schema_files).
+Proof.
+  intros Ha Ht.
+  destruct (gvs_inv schema_files (fun n r v e1 => prune_idem_shipped _ r v e1) [] init_state name (Some v)
+                    (Inv_init schema_files []) (fun q H => match H with end)) as (A & _ & _).
+  rewrite A. unfold fresh_gvs, load. rewrite Ha, Ht. reflexivity.
+Qed.
+
+(* the cache-key side condition is needed: "hex" + str(2) = "hex2" *)
+Definition collision_calls : list call :=
+  [CVersioned (Some (NInt 2)) (Str "hex"); CVersioned None (Str "hex2")].
+
+Lemma collision_witness :
+  nth_error (run schema_files init_state collision_calls) 1
+  <> Some (fresh schema_files (CVersioned None (Str "hex2"))).
+Proof. vm_compute. intros H. discriminate H. Qed.
+
+Lemma collision_keys :
+  cache_key (Str "hex") (Some (NInt 2)) = cache_key (Str "hex2") None.
+Proof. vm_compute. reflexivity. Qed.
+
+(* ------------------------------------------------------------------ statements about a fresh Validator on root map *)
+Lemma map_versioned_tree (v : vnum) :
+  vtruthy (Some v) = true ->
+  exists e, fst (get_versioned_schema schema_files (Some v) (Str "map") init_state) = Ok e /\
+            entry_tree e = tprune (vnum_num v) (expand schema_files schema_map).
+Proof.
+  intros Ht. rewrite (gvs_fresh (Str "map") v schema_map map_file Ht).
+  exact (map_pruned_tree (vnum_num v)).
+Qed.
+
+Lemma map_validator_tree (v : vnum) :
+  vtruthy (Some v) = true ->
+  fst (validator_tree schema_files (Str "map") (Some v) init_state)
+  = Ok (tprune (vnum_num v) (expand schema_files schema_map)).
+Proof.
+  intros Ht. destruct (map_versioned_tree v Ht) as (e & He & Htree).
+  unfold validator_tree. rewrite Ht.
+  destruct (get_versioned_schema schema_files (Some v) (Str "map") init_state) as [[e'|x] s1];
+    cbn [fst] in *; [|discriminate]. injection He as ->. rewrite Htree. reflexivity.
+Qed.
+
+Lemma map_versionless_tree (ver : option vnum) :
+  vtruthy ver = false ->
+  fst (validator_tree schema_files (Str "map") ver init_state) = Ok (expand schema_files schema_map).
+Proof.
+  intros Hf.
+  destruct (vtree_inv schema_files (fun n r v e1 => prune_idem_shipped _ r v e1) [] init_state (Str "map") ver
+                      (Inv_init schema_files []) (fun q H => match H with end)) as [A _].
+  rewrite A. unfold fresh_tree. rewrite Hf, map_file. reflexivity.
+Qed.
+
+(* reading lemma for the declarative pruning: an object-valued entry of an
+   object stays exactly when its range contains the version *)
+Lemma tprune_obj_cons v k x l :
+  tprune v (JObj ((k, x) :: l)) =
+  match tprune v (JObj l) with
+  | JObj l' => if is_obj x && negb (in_range v x) then JObj l' else JObj ((k, tprune v x) :: l')
+  | other => other
+  end.
+Proof. cbn [tprune]. destruct (is_obj x && negb (in_range v x)); reflexivity. Qed.
+
+Lemma tprune_arr_cons v x l :
+  tprune v (JArr (x :: l)) =
+  match tprune v (JArr l) with
+  | JArr l' => if is_obj x && negb (in_range v x) then JArr l' else JArr (tprune v x :: l')
+  | other => other
+  end.
+Proof. cbn [tprune]. destruct (is_obj x && negb (in_range v x)); reflexivity. Qed.
+
+Lemma collision_not_free : ~ collision_free (map call_pair collision_calls).
+Proof.
+  intros H.
+  assert (E : (Str "hex", Some (NInt 2)) = (Str "hex2", @None vnum)).
+  { apply H; [left; reflexivity|right; left; reflexivity|]. exact collision_keys. }
+  discriminate E.
+Qed.
